@@ -17,6 +17,7 @@ import (
 	"context"
 	_ "crypto/sha256"
 	_ "crypto/sha512"
+	"encoding/json"
 	"fmt"
 	"os"
 	"path/filepath"
@@ -24,6 +25,7 @@ import (
 	"strings"
 
 	"github.com/opencontainers/go-digest"
+	ocispec "github.com/opencontainers/image-spec/specs-go/v1"
 	"oras.land/oras-go/v2/content/oci"
 	"oras.land/oras-go/v2/verifharness/evidence"
 	"oras.land/oras-go/v2/verifharness/gen"
@@ -40,13 +42,13 @@ func main() {
 	}
 	r := evidence.New("C08", "exploration")
 	r.Rule("case = (seeded DAG of 6–26 nodes incl. referrers, indexes, absent subjects, a sha512 blob; AutoSaveIndex on|off; AutoGC on|off; 3–6 reference names incl. unicode/odd ones; " +
-		"random history of 12–45 Push/Tag/re-tag/Untag/Delete/GC/SaveIndex steps with tag descriptors carrying annotations, platform (os/architecture/variant/os.version/os.features), artifactType, urls and data alone and combined (also re-tags changing only those fields), tags on blobs, several tags per manifest, some operations aimed at absent operands, some histories continuing on the reopened store). " +
-		"Oracle: on-disk validity after every step (AutoSaveIndex on) and after every SaveIndex (off); Obs(original)=Obs(reopened) after every step via fs.FS and at checkpoints via rw, fs.FS, archive/tar tar, system tar, " +
+		"random history of 12–45 Push/Tag/re-tag/Untag/Delete/GC/SaveIndex steps with tag descriptors carrying annotations, platform (os/architecture/variant/os.version/os.features), artifactType, urls and data alone and combined (also re-tags changing only those fields), tag descriptors obtained from Resolve(<digest>) (octet-stream media type for plain blobs), tags on blobs, several tags per manifest, some operations aimed at absent operands, some histories continuing on the reopened store). " +
+		"Oracle: on-disk validity after every step (AutoSaveIndex on) and after every SaveIndex (off); Obs(original)=Obs(reopened) after every step via fs.FS and at checkpoints via rw, fs.FS, archive/tar tar, system tar, and (at checkpoints and a quarter of the steps) via archives made earlier in the history and updated in place by appending the changed files (system tar -r; archive/tar append mode; re-made when a file disappeared), " +
 		"Obs = Tags, Resolve of every reference name used, Resolve of every digest seen (incl. never-pushed and foreign ones), Exists, Fetch bytes, Predecessors of every node. " +
 		"distinct = hash(options, sequence of operation kinds with outcomes); non-trivial = history contains a successful re-tag or untag and a successful delete or GC. " +
 		"Concurrent sub-phase (also under the race detector): 2–12 goroutines Push/Tag/re-tag/Untag on one store (AutoSaveIndex on, colliding reference names, yield hook between resolver update and index save); after all returned: on-disk validity and Obs(original)=Obs(reopened) on all four paths; distinct = per-goroutine operation kinds; non-trivial = ≥ 2 goroutines and ≥ 4 operations that rewrote index.json")
 	r.Assume("concurrent sub-phase: interleavings are sampled, not enumerated; no expectation on which final state is reached, only original = reopened at quiescence")
-	r.Assume("one media type per digest (media-type twins are C01's shape, as in C07); descriptors passed to Tag carry the node's true media type and size")
+	r.Assume("content is pushed under one media type per digest (media-type twins among pushed nodes are C01's shape, as in C07); descriptors passed to Tag are the pushed one or the one Resolve(<digest>) returns, both with the true size")
 	r.Assume("reference names are valid UTF-8 (JSON cannot carry other byte strings)")
 	r.Assume("with AutoSaveIndex off the directory is only judged after an explicit SaveIndex, as the statement says")
 	worker.Run(r, worker.Opts{Phase: "hist", Total: r.N(400, 6000), Batch: r.N(20, 50)})
@@ -163,6 +165,7 @@ func runCase(phase string, i int) worker.Result {
 			Nodes: ocicheck.Describe(nodes), History: append([]string{}, history...), Detail: detail}
 	}
 
+	explicitlyDeleted := map[string]bool{} // digests that were the explicit target of a successful Delete
 	validate := func(after string) bool {
 		rep := ocicheck.Validate(dir)
 		res.Count("ondisk_validations", 1)
@@ -173,7 +176,13 @@ func runCase(phase string, i int) worker.Result {
 			return true
 		}
 		p := rep.Problems[0]
-		res.Violate("ondisk:"+p.Key+":after-"+after, fmt.Sprintf("after %s the directory is not a valid layout: %s", after, p.What), wit(rep.Problems))
+		key := "ondisk:" + p.Key + ":after-" + after
+		if danglingOnlyOtherMediaType(rep, nodes, explicitlyDeleted) {
+			// specific shape: Delete(descriptor as pushed) of a blob that carries a tag placed
+			// through a descriptor of another media type (e.g. the one Resolve(<digest>) returns)
+			key = "delete-leaves-tag-of-other-mediatype"
+		}
+		res.Violate(key, fmt.Sprintf("after %s the directory is not a valid layout: %s", after, p.What), wit(rep.Problems))
 		return false
 	}
 
@@ -203,6 +212,14 @@ func runCase(phase string, i int) worker.Result {
 		key := fmt.Sprintf("obs-diff:%s:%s:after-%s", d.Field, how, after)
 		if gcUnsaved {
 			key = "gc-index-not-saved"
+		} else if twinOrderShape(dir, diffs) {
+			// specific shape: one digest tagged under two media types; which one a reopened
+			// store answers for Resolve(<digest>) depends on the entry order in index.json
+			key = "resolve-digest-mediatype-by-index-order"
+		} else if byDigestTypeNotPersisted(dir, diffs) {
+			// specific shape: the media type the live store answers for Resolve(<digest>) is carried
+			// by no index.json entry of that digest (the by-digest entry is dropped when the digest has names)
+			key = "resolve-digest-mediatype-not-persisted"
 		} else if unlistedManifestShape(dir, nodes, diffs) {
 			// specific shape, see the function
 			key = "predecessors-of-unlisted-manifest"
@@ -217,6 +234,39 @@ func runCase(phase string, i int) worker.Result {
 	}
 	dirty := false // AutoSaveIndex off: something happened since the last SaveIndex
 	failed := false
+
+	// archives made earlier and updated in place by appending (last entry of a name wins)
+	tracker := &ocicheck.TarTracker{Scratch: scratch}
+	trackedTars := func(after string) bool {
+		appended, err := tracker.Refresh(dir)
+		if err != nil {
+			res.Violate("harness:tracked-tar", err.Error(), wit(nil))
+			return false
+		}
+		if appended {
+			res.Count("tar_updates_by_append", 1)
+		}
+		if tracker.Updates == 0 {
+			return true // freshly made: same as the plain tar paths
+		}
+		res.MaxOf("max_generations_in_one_appended_tar", int64(tracker.Updates))
+		a := ocicheck.Observe(ctx, st, nodes, probeRefs, digests)
+		for how, path := range map[string]string{"systar-appended": tracker.SysTar, "gotar-appended": tracker.GoTar} {
+			ro, err := ocicheck.OpenTar(ctx, path)
+			if err != nil {
+				report(how, after, nil, err, false)
+				return false
+			}
+			b := ocicheck.Observe(ctx, ro, nodes, probeRefs, digests)
+			res.Count("reopen_comparisons_"+how, 1)
+			res.Count("answers_compared", int64(a.Items()))
+			if diffs := ocicheck.Diff(a, b); len(diffs) > 0 {
+				report(how, after, diffs, nil, false)
+				return false
+			}
+		}
+		return true
+	}
 
 	checkpoint := func(after string) bool {
 		if !autoSave && dirty {
@@ -236,6 +286,9 @@ func runCase(phase string, i int) worker.Result {
 				report(how, after, diffs, err, false)
 				return false
 			}
+		}
+		if !trackedTars(after) {
+			return false
 		}
 		res.Count("checkpoints", 1)
 		return true
@@ -314,11 +367,23 @@ func runCase(phase string, i int) worker.Result {
 				if isRetag {
 					retagOrUntag = true
 				}
+				if op.Resolved {
+					res.Count("tag_descriptors_via_resolve", 1)
+					if !nodes[op.Node].Manifest {
+						res.Count("tag_descriptors_via_resolve_on_blobs", 1)
+					}
+				}
 			case "untag":
 				retagOrUntag = true
 			case "delete", "gc":
 				delOrGC = true
+				if op.Kind == "delete" {
+					explicitlyDeleted[nodes[op.Node].Desc.Digest.String()] = true
+				}
 			}
+		}
+		if op.Kind == "push" && err == nil {
+			delete(explicitlyDeleted, nodes[op.Node].Desc.Digest.String())
 		}
 		if op.Kind == "saveindex" && err == nil {
 			dirty = false
@@ -344,6 +409,11 @@ func runCase(phase string, i int) worker.Result {
 			}
 			if rng.IntN(6) == 0 {
 				if !checkpoint(after) {
+					failed = true
+					break
+				}
+			} else if rng.IntN(4) == 0 {
+				if !trackedTars(after) {
 					failed = true
 					break
 				}
@@ -430,6 +500,99 @@ func unlistedManifestShape(dir string, nodes []ocicheck.Node, diffs []ocicheck.D
 			if _, stored := rep.Blobs[nodes[id].Desc.Digest.String()]; !stored {
 				return false
 			}
+		}
+	}
+	return true
+}
+
+// danglingOnlyOtherMediaType: every index.json entry with a reference name whose
+// blob is missing (a) belongs to a node that was the explicit target of a Delete
+// and (b) carries a media type other than the one the node was pushed with.
+func danglingOnlyOtherMediaType(rep *ocicheck.Report, nodes []ocicheck.Node, explicitlyDeleted map[string]bool) bool {
+	if rep.Index == nil {
+		return false
+	}
+	pushed := map[string]string{}
+	for _, n := range nodes {
+		pushed[n.Desc.Digest.String()] = n.Desc.MediaType
+	}
+	found := false
+	for _, p := range rep.Problems {
+		if p.Key != "named-entry-missing-blob" {
+			return false
+		}
+	}
+	for _, e := range rep.Index.Manifests {
+		if e.Annotations[ocispec.AnnotationRefName] == "" {
+			continue
+		}
+		if _, ok := rep.Blobs[e.Digest.String()]; ok {
+			continue
+		}
+		mt, known := pushed[e.Digest.String()]
+		if !known || mt == e.MediaType || !explicitlyDeleted[e.Digest.String()] {
+			return false
+		}
+		found = true
+	}
+	return found
+}
+
+// twinOrderShape: all differences are Resolve(<digest>) answers, and every such
+// digest has index.json entries with reference names under two or more media types.
+func twinOrderShape(dir string, diffs []ocicheck.Difference) bool {
+	rep := ocicheck.Validate(dir)
+	if rep.Index == nil || len(diffs) == 0 {
+		return false
+	}
+	types := map[string]map[string]bool{}
+	for _, e := range rep.Index.Manifests {
+		if e.Annotations[ocispec.AnnotationRefName] == "" {
+			continue
+		}
+		if types[e.Digest.String()] == nil {
+			types[e.Digest.String()] = map[string]bool{}
+		}
+		types[e.Digest.String()][e.MediaType] = true
+	}
+	for _, d := range diffs {
+		if d.Field != "resolve-digest" || len(types[d.Item]) < 2 {
+			return false
+		}
+	}
+	return true
+}
+
+// byDigestTypeNotPersisted: all differences are Resolve(<digest>) answers that
+// differ in media type only, the digest has index.json entries with reference
+// names, and none of its entries carries the media type the original answers.
+func byDigestTypeNotPersisted(dir string, diffs []ocicheck.Difference) bool {
+	rep := ocicheck.Validate(dir)
+	if rep.Index == nil || len(diffs) == 0 {
+		return false
+	}
+	for _, d := range diffs {
+		if d.Field != "resolve-digest" {
+			return false
+		}
+		var a, b ocispec.Descriptor
+		if json.Unmarshal([]byte(d.A), &a) != nil || json.Unmarshal([]byte(d.B), &b) != nil || a.MediaType == b.MediaType {
+			return false
+		}
+		named, carried := false, false
+		for _, e := range rep.Index.Manifests {
+			if e.Digest.String() != d.Item {
+				continue
+			}
+			if e.Annotations[ocispec.AnnotationRefName] != "" {
+				named = true
+			}
+			if e.MediaType == a.MediaType {
+				carried = true
+			}
+		}
+		if !named || carried {
+			return false
 		}
 	}
 	return true
